@@ -139,6 +139,12 @@ func (db *DB) put(tx *bbolt.Tx, obj *object.Object, nestingLevel int, currEpoch 
 				return diff, nil
 			}
 		}
+	case nestingLevel > 0 && errors.Is(err, ErrObjectIsExpired):
+		// The parent header is already indexed (through another part) and merely
+		// expired. Whether a part gets indexed must not depend on the order the
+		// parts (and a lock of the parent) arrive in: the first part carrying the
+		// header is indexed anyway.
+		return diff, nil
 	case err != nil:
 		return diff, err // return any other errors
 	}
@@ -219,7 +225,9 @@ func handleObjectWithAssociation(metaBkt *bbolt.Bucket, diff *CountersDiff, curr
 		}
 
 		st := objectStatus(metaCursor, target, currEpoch)
-		if st == statusTombstoned {
+		// an expired target is reported as expired whatever its marks: look at
+		// the tombstone mark itself too, the lock would make it available again
+		if st == statusTombstoned || inGarbage(metaCursor, target) == statusTombstoned {
 			return logicerr.Wrap(apistatus.ErrObjectAlreadyRemoved)
 		}
 
